@@ -1,6 +1,384 @@
 package sim
 
-// ExecuteInfl runs one inflector history (C20). Implemented in infl_exec.go.
-func ExecuteInfl(env *Env, sc *Scenario) ([]Violation, error) {
-	return executeInfl(env, sc)
+import (
+	"bytes"
+	"encoding/json"
+	"fmt"
+	"os"
+	"os/exec"
+	"strings"
+
+	"verifharness/inflproto"
+	"verifharness/wk"
+)
+
+// InflCall is one call; when Word is set the argument is Prefix+Word with
+// Prefix ending in an ASCII word boundary, and the prefix clause (I4) applies.
+type InflCall struct {
+	Op     string `json:"op"` // "P" Pluralize | "S" Singularize
+	Arg    string `json:"arg"`
+	Hex    bool   `json:"hex,omitempty"` // Arg is hex-encoded (not valid UTF-8)
+	Prefix string `json:"prefix,omitempty"`
+	Word   string `json:"word,omitempty"`
+}
+
+// InflHistory is one concurrent history: per client goroutine a list of calls,
+// and the schedule (seed for exploration, explicit goroutine ids for replay).
+type InflHistory struct {
+	Clients  [][]InflCall `json:"clients"`
+	Seed     uint64       `json:"seed"`
+	Schedule []int        `json:"schedule,omitempty"`
+}
+
+// InflCase is a batch of histories executed in order in ONE fresh process
+// (the cache persists between them: call-history independence, I3).
+type InflCase struct {
+	Histories []InflHistory `json:"histories"`
+	// Race: run with real goroutines under the race detector instead of the
+	// cooperative scheduler (not deterministic; Reps repetitions).
+	Race bool `json:"race,omitempty"`
+	Reps int  `json:"reps,omitempty"`
+}
+
+// English irregular nouns (singular / plural) and uninflected words: workload
+// for C20. The oracle never uses the pairing, only the metamorphic relation
+// f(prefix+w) == prefix+f(w) and agreement with a sequential reference run.
+var irregularSingular = []string{"atlas", "beef", "brother", "cafe", "child", "cookie", "corpus", "cow", "ganglion", "genie", "genus",
+	"graffito", "hoof", "loaf", "man", "money", "mongoose", "move", "mythos", "niche", "numen", "occiput", "octopus", "opus", "ox",
+	"penis", "person", "sex", "soliloquy", "testis", "trilby", "turf", "potato", "hero", "tooth", "goose", "foot"}
+var irregularPlural = []string{"foes", "waves", "curves", "atlases", "beefs", "brothers", "cafes", "children", "cookies", "corpuses", "cows",
+	"ganglions", "genies", "genera", "graffiti", "hoofs", "loaves", "men", "monies", "mongooses", "moves", "mythoi", "niches", "numina",
+	"occiputs", "octopuses", "opuses", "oxen", "penises", "people", "sexes", "soliloquies", "testes", "trilbys", "turfs", "potatoes",
+	"heroes", "teeth", "geese", "feet"}
+var uninflectedWords = []string{"bison", "bream", "breeches", "carp", "chassis", "cod", "corps", "debris", "diabetes", "elk", "equipment",
+	"gallows", "graffiti", "headquarters", "information", "innings", "mackerel", "media", "moose", "news", "pliers", "rice", "salmon",
+	"scissors", "sea-bass", "sea bass", "series", "species", "swine", "trout", "tuna", "whiting", "sheep", "deer", "fish", "Chinese", "measles", "people", "class"}
+var regularWords = []string{"status", "quiz", "mouse", "matrix", "index", "box", "church", "city", "hive", "wife", "leaf", "analysis",
+	"datum", "buffalo", "tomato", "virus", "alias", "axis", "bus", "cat", "a", "s", "", "ss", "ID", "user_id", "userName", "Query", "menus",
+	"movies", "shoes", "drives", "news", "bureaus", "octopi", "caches", "addresses", "statuses"}
+var boundaries = []string{" ", "-", ".", "/", ":", "+", "--", " - "}
+var prefixes = []string{"old", "big", "a.b", "x", "New York", "well known", "42", "Ünï", "a-b", "UPPER"}
+
+func caseVariant(r *Rng, w string) string {
+	switch r.Intn(5) {
+	case 0:
+		return strings.ToUpper(w)
+	case 1:
+		if w == "" {
+			return w
+		}
+		return strings.ToUpper(w[:1]) + w[1:]
+	}
+	return w
+}
+
+// drawInflCall draws one call; token is a fresh string that makes the argument
+// new to the cache (so the miss path runs under contention).
+func drawInflCall(r *Rng, token string) InflCall {
+	op := Pick(r, []string{"P", "S"})
+	irr := irregularSingular
+	if op == "S" {
+		irr = irregularPlural
+	}
+	switch r.Intn(10) {
+	case 0, 1, 2, 3:
+		// prefix + boundary + irregular word: the prefix clause
+		w := caseVariant(r, Pick(r, irr))
+		p := Pick(r, prefixes)
+		if r.P(0.7) {
+			p = token + p
+		}
+		p += Pick(r, boundaries)
+		return InflCall{Op: op, Arg: p + w, Prefix: p, Word: w}
+	case 4:
+		return InflCall{Op: op, Arg: caseVariant(r, Pick(r, irr))}
+	case 5:
+		w := caseVariant(r, Pick(r, uninflectedWords))
+		if r.P(0.5) {
+			w = token + w
+		}
+		return InflCall{Op: op, Arg: w}
+	case 6:
+		// non-ASCII first rune, odd strings
+		w := inflproto.Wire(op, Pick(r, []string{"émove", "Ñandú", "日本", "ß", "\xff\xfe", "ox\xc3", " ", "-", "é", "ox\n", "\tman", "person "})+Pick(r, []string{"", token}))
+		return InflCall{Op: op, Arg: w.Arg, Hex: w.Hex}
+	case 7:
+		return InflCall{Op: op, Arg: token + caseVariant(r, Pick(r, regularWords))}
+	case 8:
+		return InflCall{Op: op, Arg: caseVariant(r, Pick(r, regularWords))}
+	default:
+		// same string in both rule types / differing only in case
+		w := Pick(r, irr)
+		return InflCall{Op: Pick(r, []string{"P", "S"}), Arg: token + "-" + caseVariant(r, w), Prefix: token + "-", Word: ""}
+	}
+}
+
+// DrawInflHistory draws one history: 2-4 clients, 2-6 calls each; some calls
+// are shared between clients so that several goroutines miss on one fresh key.
+func DrawInflHistory(r *Rng, id string) InflHistory {
+	h := InflHistory{Seed: r.U64()}
+	nClients := r.Range(2, 4)
+	var shared []InflCall
+	for k := r.Range(1, 3); k > 0; k-- {
+		shared = append(shared, drawInflCall(r, fmt.Sprintf("t%s%d", id, k)))
+	}
+	for c := 0; c < nClients; c++ {
+		var calls []InflCall
+		for k := r.Range(2, 6); k > 0; k-- {
+			if r.P(0.5) {
+				calls = append(calls, Pick(r, shared))
+			} else {
+				calls = append(calls, drawInflCall(r, fmt.Sprintf("u%s%d%d", id, c, k)))
+			}
+		}
+		h.Clients = append(h.Clients, calls)
+	}
+	return h
+}
+
+func startInfl(env *Env, bin string) (*wk.Worker, error) {
+	w, err := wk.Start(bin, wk.Env(env.GoRoot, env.GoMaxProcs))
+	if err != nil {
+		return nil, infra("start inflworker: %v", err)
+	}
+	return w, nil
+}
+
+func inflDo(env *Env, w *wk.Worker, req *inflproto.Req) (*inflproto.Resp, error) {
+	data, _ := json.Marshal(req)
+	line, err := w.DoRaw(data, env.Timeout)
+	if err != nil {
+		return nil, infra("inflworker: %v", err)
+	}
+	var resp inflproto.Resp
+	if err := json.Unmarshal(line, &resp); err != nil {
+		return nil, infra("inflworker response: %v", err)
+	}
+	return &resp, nil
+}
+
+type refKey struct{ op, arg string }
+
+func (c InflCall) raw() string { return inflproto.Call{Op: c.Op, Arg: c.Arg, Hex: c.Hex}.Raw() }
+
+// executeInfl runs a batch of histories in a fresh scheduled worker and checks
+// I1-I4 against a sequential reference computed in another fresh process.
+func executeInfl(env *Env, sc *Scenario) ([]Violation, error) {
+	ic := sc.Infl
+	if ic == nil {
+		return nil, infra("infl scenario without case")
+	}
+	if ic.Race {
+		return executeInflRace(env, sc)
+	}
+	var viol []Violation
+	add := func(oracle, class, detail string, hi int, facts map[string]string) {
+		viol = append(viol, Violation{Property: "C20", Oracle: oracle, Class: class, Detail: detail, Step: hi, Facts: facts})
+	}
+
+	// the sequential reference: every distinct (op, arg) exactly once, fresh process
+	var refCalls []inflproto.Call
+	seen := map[refKey]int{}
+	need := func(op, arg string) {
+		k := refKey{op, arg}
+		if _, ok := seen[k]; !ok {
+			seen[k] = len(refCalls)
+			refCalls = append(refCalls, inflproto.Wire(op, arg))
+		}
+	}
+	for _, h := range ic.Histories {
+		for _, cl := range h.Clients {
+			for _, c := range cl {
+				need(c.Op, c.raw())
+				if c.Word != "" {
+					need(c.Op, c.Word)
+				}
+			}
+		}
+	}
+	rw, err := startInfl(env, env.InflBin)
+	if err != nil {
+		return nil, err
+	}
+	refResp, err := inflDo(env, rw, &inflproto.Req{Mode: "seq", Calls: refCalls})
+	rw.Close()
+	if err != nil {
+		return nil, err
+	}
+	ref := func(op, arg string) inflproto.Result { return refResp.Seq[seen[refKey{op, arg}]] }
+	for i, c := range refCalls {
+		if p := refResp.Seq[i].Panic; p != "" {
+			add("I1", "panic", fmt.Sprintf("sequential %s(%q) panics: %s", c.Op, c.Raw(), firstLine(p)), -1, map[string]string{"arg": c.Raw()})
+		}
+	}
+
+	w, err := startInfl(env, env.InflBin)
+	if err != nil {
+		return nil, err
+	}
+	defer w.Close()
+	for hi, h := range ic.Histories {
+		req := &inflproto.Req{Mode: "sched", Seed: h.Seed, Schedule: h.Schedule}
+		for _, cl := range h.Clients {
+			var calls []inflproto.Call
+			for _, c := range cl {
+				calls = append(calls, inflproto.Call{Op: c.Op, Arg: c.Arg, Hex: c.Hex})
+			}
+			req.Clients = append(req.Clients, calls)
+		}
+		resp, err := inflDo(env, w, req)
+		if err != nil {
+			return nil, err
+		}
+		env.Stats.Add("infl-histories", 1)
+		env.Stats.Add("infl-steps", int64(resp.Steps))
+		for k, n := range resp.Probes {
+			env.Stats.Add("probe/"+k, int64(n))
+		}
+		env.Stats.TraceInts(resp.Schedule)
+		if resp.Deadlock {
+			add("I1", "deadlock", fmt.Sprintf("history %d: no goroutine can run, blocked: %v", hi, resp.Blocked), hi, nil)
+			continue
+		}
+		for ci, cl := range h.Clients {
+			if len(resp.Results[ci]) != len(cl) {
+				add("I1", "call-did-not-return", fmt.Sprintf("history %d client %d: %d of %d calls returned", hi, ci, len(resp.Results[ci]), len(cl)), hi, nil)
+				continue
+			}
+			for k, c := range cl {
+				got := resp.Results[ci][k]
+				want := ref(c.Op, c.raw())
+				switch {
+				case got.Panic != "":
+					add("I1", "panic", fmt.Sprintf("history %d: %s(%q) panics: %s", hi, c.Op, c.raw(), firstLine(got.Panic)), hi, map[string]string{"arg": c.raw()})
+				case want.Panic == "" && got.Value() != want.Value():
+					add("I2", "result-differs-from-sequential-reference", fmt.Sprintf("history %d client %d call %d: %s(%q) = %q, sequential reference %q", hi, ci, k, c.Op, c.raw(), got.Value(), want.Value()), hi, nil)
+				}
+			}
+		}
+	}
+	// I4: the prefix clause, on the reference values (input-determined)
+	for _, h := range ic.Histories {
+		for _, cl := range h.Clients {
+			for _, c := range cl {
+				if c.Word == "" {
+					continue
+				}
+				whole, alone := ref(c.Op, c.raw()), ref(c.Op, c.Word)
+				if whole.Panic != "" || alone.Panic != "" {
+					continue
+				}
+				env.Stats.Add("probe/prefix-clause-checked", 1)
+				if whole.Value() != c.Prefix+alone.Value() {
+					add("I4", "prefix-not-preserved", fmt.Sprintf("%s(%q) = %q but %s(%q) = %q: want %q", c.Op, c.Arg, whole.Value(), c.Op, c.Word, alone.Value(), c.Prefix+alone.Value()), -1,
+						map[string]string{"arg": c.Arg})
+				}
+			}
+		}
+	}
+	return viol, nil
+}
+
+// executeInflRace: the unmodified package, real goroutines, race detector.
+func executeInflRace(env *Env, sc *Scenario) ([]Violation, error) {
+	ic := sc.Infl
+	reps := ic.Reps
+	if reps <= 0 {
+		reps = 1
+	}
+	var input bytes.Buffer
+	for rep := 0; rep < reps; rep++ {
+		for _, h := range ic.Histories {
+			var clients [][]inflproto.Call
+			for _, cl := range h.Clients {
+				var calls []inflproto.Call
+				for _, c := range cl {
+					arg := c.raw()
+					if rep > 0 {
+						arg = fmt.Sprintf("r%d", rep) + arg // fresh keys: the miss path must run again
+					}
+					calls = append(calls, inflproto.Wire(c.Op, arg))
+				}
+				clients = append(clients, calls)
+			}
+			line, _ := json.Marshal(clients)
+			input.Write(line)
+			input.WriteByte('\n')
+		}
+	}
+	cmd := exec.Command(env.InflRace)
+	cmd.Env = append(os.Environ(), "GOMAXPROCS=16", "GORACE=halt_on_error=1 exitcode=66")
+	cmd.Stdin = &input
+	var stdout, stderr bytes.Buffer
+	cmd.Stdout, cmd.Stderr = &stdout, &stderr
+	err := cmd.Run()
+	env.Stats.Add("infl-histories", int64(reps*len(ic.Histories)))
+	env.Stats.Add("infl-race-histories", int64(reps*len(ic.Histories)))
+	if err != nil {
+		if strings.Contains(stderr.String(), "DATA RACE") {
+			return []Violation{{Property: "C20", Oracle: "R1", Class: "data-race", Detail: firstLine(stderr.String()) + " " + raceSummary(stderr.String())}}, nil
+		}
+		if strings.Contains(stderr.String(), "fatal error: concurrent map") {
+			return []Violation{{Property: "C20", Oracle: "R1", Class: "concurrent-map-access", Detail: firstLine(stderr.String())}}, nil
+		}
+		return nil, infra("inflrace: %v: %s", err, clip(stderr.String()))
+	}
+	// results of the race leg are checked for panics too
+	var viol []Violation
+	dec := json.NewDecoder(&stdout)
+	for dec.More() {
+		var results [][]inflproto.Result
+		if err := dec.Decode(&results); err != nil {
+			break
+		}
+		for _, cl := range results {
+			for _, r := range cl {
+				if r.Panic != "" {
+					viol = append(viol, Violation{Property: "C20", Oracle: "I1", Class: "panic", Detail: "race leg: " + firstLine(r.Panic)})
+				}
+			}
+		}
+	}
+	return viol, nil
+}
+
+func raceSummary(s string) string {
+	var out []string
+	for _, l := range strings.Split(s, "\n") {
+		l = strings.TrimSpace(l)
+		if strings.Contains(l, "gengo/pkg/inflector") && len(out) < 4 {
+			out = append(out, l)
+		}
+	}
+	return strings.Join(out, " | ")
+}
+
+// SimC20 is one simulation: a batch of histories under the cooperative
+// scheduler; every 8th simulation additionally feeds its histories to the
+// race-detector leg.
+func SimC20(c *CheckCtx, i int, r *Rng) error {
+	n := 12
+	ic := &InflCase{}
+	for k := 0; k < n; k++ {
+		ic.Histories = append(ic.Histories, DrawInflHistory(r, fmt.Sprintf("%d_%d_", i, k)))
+	}
+	sc := &Scenario{Kind: "infl", Infl: ic}
+	if _, err := c.RunScenario(sc, i); err != nil {
+		return err
+	}
+	for _, h := range ic.Histories {
+		shape := fmt.Sprintf("%d clients", len(h.Clients))
+		for _, cl := range h.Clients {
+			shape += fmt.Sprintf("/%d", len(cl))
+		}
+		c.Env.Stats.Fingerprint(fmt.Sprintf("%s/%x", shape, h.Seed%97))
+	}
+	c.Env.Stats.Sample(map[string]any{"sim": i, "history": ic.Histories[0]}, 3)
+	if i%8 == 0 {
+		race := &Scenario{Kind: "infl", Infl: &InflCase{Histories: ic.Histories, Race: true, Reps: 8}}
+		if _, err := c.RunScenario(race, i); err != nil {
+			return err
+		}
+	}
+	return nil
 }
